@@ -111,7 +111,7 @@ def s_apply(ctx, container_is_function=False):
                     t.name = "w" if ctx.choose(2, "initializer name clashes with an existing one") == 1 else "fresh_w"
                     inits.append(t)
                     # a replacement may bring several initializers, and a rule author may reuse one name for two of them
-                    if ctx.choose(2, "replacement has a second new initializer") == 1:
+                    if r_i == 0 and ctx.choose(2, "replacement has a second new initializer") == 1:
                         t2 = Tok("new_init2")
                         t2.name = t.name if ctx.choose(2, "the second one has the name of the first") == 1 else "other_w"
                         inits.append(t2)
@@ -326,11 +326,11 @@ def _mk(fn, *a):
 F = lambda *q: [(REL, x) for x in q]
 SCENARIOS = [
     Scenario("C07.apply_to_graph", _mk(s_apply, False), F("RewriteRuleSet._apply_to_graph_or_function"), kind="bounded",
-             bound="container with 2 nodes (one carrying a subgraph attribute), 2 rules, each rule applies or not per node, replacement with 2 nodes and 0/1 new initializer (fresh or clashing name)",
+             bound="container with 2 nodes (one carrying a subgraph attribute), 2 rules, each rule applies or not per node, replacement with 2 nodes and 0-2 new initializers (fresh or clashing names, the second possibly named like the first)",
              trusted=["ir.convenience.replace_nodes_and_values (onnx_ir): removes exactly old_nodes, inserts new_nodes at the insertion point, redirects every use of old_values (incl. graph outputs and uses in nested subgraphs) to new_values"],
-             max_paths=20000),
+             max_paths=60000),
     Scenario("C07.apply_to_function", _mk(s_apply, True), F("RewriteRuleSet._apply_to_graph_or_function"), kind="bounded",
-             bound="same driver with an ir.Function container", max_paths=20000),
+             bound="same driver with an ir.Function container", max_paths=60000),
     Scenario("C07.apply_to_model", s_apply_to_model, F("RewriteRuleSet.apply_to_model")),
     Scenario("C07.update_opset_imports", s_update_opset_imports, F("_update_opset_imports")),
     Scenario("C07.try_rewrite", s_try_rewrite, F("RewriteRule.try_rewrite")),
